@@ -1,5 +1,400 @@
-import U3.Model.Headers
+import U3.Lemmas.Headers
+/-!
+# C16 — HTTPHeaderDict behaves as a case-insensitive, order-preserving multimap
+
+Model: `U3.Headers.step` (the grouped `_container` representation, every public mutator).
+Reference: `U3.Headers.specStep` on flat `(name, value)` line lists ("assignment replaces, add
+appends, names compare case-insensitively").  Abstraction: `iteritems`.
+-/
 namespace U3.Props
 open U3 U3.Headers
-theorem C16_placeholder : (1:Nat) = 1 := rfl
+
+def StoreInv (st : Store) : Prop := ∀ h ∈ st, Inv h
+def absS (st : Store) : List Flat := st.map iteritems
+def run (ops : List Op) : Store := ops.foldl (fun st op => (step st op).1) []
+def specRun (ops : List Op) : List Flat := ops.foldl (fun st op => (specStep st op).1) []
+
+private theorem storeInv_set {st : Store} {i : Nat} {h : HD} (hs : StoreInv st) (hh : Inv h) :
+    StoreInv (st.set i h) := by
+  intro x hx
+  rcases List.mem_or_eq_of_mem_set hx with h1 | h1
+  · exact hs x h1
+  · subst h1; exact hh
+
+private theorem storeInv_push {st : Store} {h : HD} (hs : StoreInv st) (hh : Inv h) :
+    StoreInv (st ++ [h]) := by
+  intro x hx
+  simp only [List.mem_append, List.mem_singleton] at hx
+  rcases hx with h1 | h1
+  · exact hs x h1
+  · subst h1; exact hh
+
+private theorem inv_of_get {st : Store} {i : Nat} {h : HD} (hs : StoreInv st) (hg : st.get i = some h) :
+    Inv h := hs h (List.mem_of_getElem? hg)
+
+private theorem construct_inv {st : Store} {s : Src} {h : HD} (hs : StoreInv st)
+    (hc : construct st s = some h) : Inv h := by
+  cases s with
+  | hd i =>
+    simp only [construct, Option.map_eq_some_iff] at hc
+    obtain ⟨g, hg, rfl⟩ := hc
+    rw [copy_eq g (inv_of_get hs hg)]; exact inv_of_get hs hg
+  | pairs ps =>
+    simp only [construct, Option.some.injEq] at hc
+    subst hc; exact extend_inv ps [] inv_nil
+
+/-- **Invariant, one step**: keys pairwise distinct, `key = lower name`, no empty value list. -/
+theorem C16_inv_step (st : Store) (op : Op) (hs : StoreInv st) : StoreInv (step st op).1 := by
+  cases op with
+  | new => exact storeInv_push hs inv_nil
+  | ctor s =>
+    simp only [step]; split
+    · rename_i h hc; exact storeInv_push hs (construct_inv hs hc)
+    · exact hs
+  | set i k v =>
+    simp only [step]; split
+    · rename_i h hg; exact storeInv_set hs (setItem_inv h k v (inv_of_get hs hg))
+    · exact hs
+  | del i k =>
+    simp only [step]; split
+    · rename_i h hg; split
+      · rename_i h' hd; exact storeInv_set hs (delItem_inv h h' k (inv_of_get hs hg) hd)
+      · exact hs
+    · exact hs
+  | add i k v c =>
+    simp only [step]; split
+    · rename_i h hg; exact storeInv_set hs (add_inv h k v c (inv_of_get hs hg))
+    · exact hs
+  | extend i s =>
+    simp only [step]; split
+    · rename_i h ps hg _; exact storeInv_set hs (extend_inv ps h (inv_of_get hs hg))
+    · exact hs
+  | update i s =>
+    simp only [step]; split
+    · rename_i h ps hg _; exact storeInv_set hs (update_inv ps h (inv_of_get hs hg))
+    · exact hs
+  | setdefault i k v =>
+    simp only [step]; split
+    · rename_i h hg; exact storeInv_set hs (setdefault_inv h k v (inv_of_get hs hg))
+    · exact hs
+  | pop i k d =>
+    simp only [step]; split
+    · rename_i h hg; split
+      · rename_i h' v hp; exact storeInv_set hs (pop_inv h h' k v (inv_of_get hs hg) hp)
+      · exact hs
+      · exact hs
+    · exact hs
+  | popitem i =>
+    simp only [step]; split
+    · rename_i h hg; split
+      · rename_i h' k v hp; exact storeInv_set hs (popitem_inv h h' k v (inv_of_get hs hg) hp)
+      · exact hs
+    · exact hs
+  | discard i k =>
+    simp only [step]; split
+    · rename_i h hg; exact storeInv_set hs (discard_inv h k (inv_of_get hs hg))
+    · exact hs
+  | clear i =>
+    simp only [step]; split
+    · exact storeInv_set hs inv_nil
+    · exact hs
+  | copy i =>
+    simp only [step]; split
+    · rename_i h hg; rw [copy_eq h (inv_of_get hs hg)]; exact storeInv_push hs (inv_of_get hs hg)
+    · exact hs
+  | or i s =>
+    simp only [step]; split
+    · rename_i h ps hg _
+      rw [copy_eq h (inv_of_get hs hg)]
+      exact storeInv_push hs (extend_inv ps h (inv_of_get hs hg))
+    · exact hs
+  | ior i s =>
+    simp only [step]; split
+    · rename_i h ps hg _; exact storeInv_set hs (extend_inv ps h (inv_of_get hs hg))
+    · exact hs
+  | ror i s =>
+    simp only [step]; split
+    · rename_i h r hg hc; exact storeInv_push hs (extend_inv _ r (construct_inv hs hc))
+    · exact hs
+  | pmc i =>
+    simp only [step]; split
+    · rename_i h hg; exact storeInv_set hs (pmc_inv h (inv_of_get hs hg))
+    · exact hs
+
+/-- **Invariant, every reachable state** (any operation sequence, any number of handles). -/
+theorem C16_inv (ops : List Op) : StoreInv (run ops) := by
+  unfold run
+  suffices ∀ st, StoreInv st → StoreInv (ops.foldl (fun st op => (step st op).1) st) from
+    this [] (by intro h hh; simp at hh)
+  induction ops with
+  | nil => intro st hs; simpa
+  | cons op t ih => intro st hs; simp only [List.foldl_cons]; exact ih _ (C16_inv_step st op hs)
+
+private theorem abs_get (st : Store) (i : Nat) : (absS st)[i]? = (st.get i).map iteritems := by
+  simp [absS, Store.get]
+
+private theorem abs_set (st : Store) (i : Nat) (h : HD) : absS (st.set i h) = (absS st).set i (iteritems h) := by
+  simp [absS, List.map_set]
+
+private theorem abs_push (st : Store) (h : HD) : absS (st ++ [h]) = absS st ++ [iteritems h] := by
+  simp [absS]
+
+private theorem abs_len (st : Store) : (absS st).length = st.length := by simp [absS]
+
+private theorem lines_refines {st : Store} {s : Src} (_hs : StoreInv st) :
+    specLinesOf (absS st) s = srcLines st s := by
+  cases s with
+  | hd i => simp [specLinesOf, srcLines, abs_get]
+  | pairs ps => rfl
+
+private theorem merged_refines {st : Store} {s : Src} (hs : StoreInv st) :
+    specMergedOf (absS st) s = srcMerged st s := by
+  cases s with
+  | hd i =>
+    simp only [specMergedOf, srcMerged, abs_get, Option.map_map]
+    cases hg : st.get i with
+    | none => rfl
+    | some h => simp [itermerged_refines h (inv_of_get hs hg)]
+  | pairs ps => rfl
+
+private theorem construct_refines {st : Store} {s : Src} (hs : StoreInv st) :
+    specConstruct (absS st) s = (construct st s).map iteritems := by
+  cases s with
+  | hd i =>
+    simp only [specConstruct, construct, abs_get, Option.map_map]
+    cases hg : st.get i with
+    | none => rfl
+    | some h => simp [copy_eq h (inv_of_get hs hg)]
+  | pairs ps =>
+    simp only [specConstruct, construct, Option.map_some]
+    rw [extend_refines ps [] inv_nil]; rfl
+
+private theorem pmc_refines (l : List Str) (h : HD) (hinv : Inv h) :
+    iteritems (l.foldl discard h) = l.foldl specDiscard (iteritems h) := by
+  induction l generalizing h with
+  | nil => rfl
+  | cons a t ih =>
+    simp only [List.foldl_cons]
+    rw [ih _ (discard_inv h a hinv), discard_refines h a hinv]
+
+/-- **Refinement, one step**: through `iteritems`, every operation of the class is the
+corresponding operation of the flat reference multimap, with the same result value. -/
+theorem C16_refines (st : Store) (op : Op) (hs : StoreInv st) :
+    absS (step st op).1 = (specStep (absS st) op).1 ∧ (step st op).2 = (specStep (absS st) op).2 := by
+  cases op with
+  | new => simp [step, specStep, abs_push, abs_len]
+  | ctor s =>
+    simp only [step, specStep, construct_refines hs]
+    cases hc : construct st s with
+    | none => simp
+    | some h => simp [abs_push, abs_len]
+  | set i k v =>
+    simp only [step, specStep, abs_get]
+    cases hg : st.get i with
+    | none => simp
+    | some h => simp [Store.put, abs_set, set_refines h k v (inv_of_get hs hg)]
+  | del i k =>
+    simp only [step, specStep, abs_get]
+    cases hg : st.get i with
+    | none => simp
+    | some h =>
+      simp only [Option.map_some]
+      rw [← del_refines h k (inv_of_get hs hg)]
+      cases hd : delItem h k with
+      | none => simp
+      | some h' => simp [Store.put, abs_set]
+  | add i k v c =>
+    simp only [step, specStep, abs_get]
+    cases hg : st.get i with
+    | none => simp
+    | some h =>
+      cases c
+      · simp [Store.put, abs_set, add_refines h k v (inv_of_get hs hg)]
+      · simp [Store.put, abs_set, addC_refines h k v (inv_of_get hs hg)]
+  | extend i s =>
+    simp only [step, specStep, abs_get, lines_refines hs]
+    cases hg : st.get i with
+    | none => simp
+    | some h =>
+      cases hl : srcLines st s with
+      | none => simp
+      | some ps => simp [Store.put, abs_set, extend_refines ps h (inv_of_get hs hg), specExtend]
+  | update i s =>
+    simp only [step, specStep, abs_get, merged_refines hs]
+    cases hg : st.get i with
+    | none => simp
+    | some h =>
+      cases hl : srcMerged st s with
+      | none => simp
+      | some ps => simp [Store.put, abs_set, update_refines ps h (inv_of_get hs hg), specUpdate]
+  | setdefault i k v =>
+    simp only [step, specStep, abs_get]
+    cases hg : st.get i with
+    | none => simp
+    | some h =>
+      have hi := inv_of_get hs hg
+      simp only [Option.map_some, setdefault, ← getItem_refines h k hi]
+      cases hgi : getItem h k with
+      | none => simp [Store.put, abs_set, set_refines h k v hi]
+      | some x => simp [Store.put, abs_set]
+  | pop i k d =>
+    simp only [step, specStep, abs_get]
+    cases hg : st.get i with
+    | none => simp
+    | some h =>
+      have hi := inv_of_get hs hg
+      simp only [Option.map_some, ← pop_refines h k hi]
+      cases hp : pop h k with
+      | none => cases d <;> simp
+      | some r => obtain ⟨h', v⟩ := r; simp [Store.put, abs_set]
+  | popitem i =>
+    simp only [step, specStep, abs_get]
+    cases hg : st.get i with
+    | none => simp
+    | some h =>
+      have hi := inv_of_get hs hg
+      simp only [Option.map_some]
+      cases h with
+      | nil => simp [popitem]
+      | cons e t =>
+        obtain ⟨v0, rest, hh⟩ := iteritems_head e t hi
+        rw [hh]
+        simp only [popitem]
+        rw [← hh, ← pop_refines (e :: t) e.name hi]
+        cases hp : pop (e :: t) e.name with
+        | none => simp
+        | some r => obtain ⟨h', v⟩ := r; simp [Store.put, abs_set]
+  | discard i k =>
+    simp only [step, specStep, abs_get]
+    cases hg : st.get i with
+    | none => simp
+    | some h => simp [Store.put, abs_set, discard_refines h k (inv_of_get hs hg)]
+  | clear i =>
+    simp only [step, specStep, abs_get]
+    cases hg : st.get i with
+    | none => simp
+    | some h => simp [Store.put, abs_set]
+  | copy i =>
+    simp only [step, specStep, abs_get]
+    cases hg : st.get i with
+    | none => simp
+    | some h => simp [abs_push, abs_len, copy_eq h (inv_of_get hs hg)]
+  | or i s =>
+    simp only [step, specStep, abs_get, lines_refines hs]
+    cases hg : st.get i with
+    | none => simp
+    | some h =>
+      cases hl : srcLines st s with
+      | none => simp
+      | some ps =>
+        simp [abs_push, abs_len, copy_eq h (inv_of_get hs hg), extend_refines ps h (inv_of_get hs hg), specExtend]
+  | ior i s =>
+    simp only [step, specStep, abs_get, lines_refines hs]
+    cases hg : st.get i with
+    | none => simp
+    | some h =>
+      cases hl : srcLines st s with
+      | none => simp
+      | some ps => simp [Store.put, abs_set, extend_refines ps h (inv_of_get hs hg), specExtend]
+  | ror i s =>
+    simp only [step, specStep, abs_get, construct_refines hs]
+    cases hg : st.get i with
+    | none => simp
+    | some h =>
+      cases hc : construct st s with
+      | none => simp
+      | some r =>
+        simp [abs_push, abs_len, extend_refines (iteritems h) r (construct_inv hs hc), specExtend]
+  | pmc i =>
+    simp only [step, specStep, abs_get]
+    cases hg : st.get i with
+    | none => simp
+    | some h => simp [Store.put, abs_set, prepareForMethodChange, pmc_refines _ h (inv_of_get hs hg)]
+
+/-- **Refinement, every operation sequence**: the flat view of the state reached by the class
+equals the state reached by the reference multimap, whatever the sequence (copies and unions
+mutated afterwards included — handles are separate values in both machines). -/
+theorem C16_refines_run (ops : List Op) : absS (run ops) = specRun ops := by
+  unfold run specRun
+  suffices ∀ st, StoreInv st →
+      absS (ops.foldl (fun st op => (step st op).1) st) = ops.foldl (fun st op => (specStep st op).1) (absS st) from
+    this [] (by intro h hh; simp at hh)
+  induction ops with
+  | nil => intro st _; rfl
+  | cons op t ih =>
+    intro st hs
+    simp only [List.foldl_cons]
+    rw [ih _ (C16_inv_step st op hs), (C16_refines st op hs).1]
+
+/-! ### Observations are functions of the flat view alone -/
+
+theorem C16_obs_getlist (h : HD) (k : Str) (hi : Inv h) : getlist h k = specGetlist (iteritems h) k :=
+  getlist_refines h k hi
+
+theorem C16_obs_getitem (h : HD) (k : Str) (hi : Inv h) : getItem h k = specGet (iteritems h) k :=
+  getItem_refines h k hi
+
+theorem C16_obs_contains (h : HD) (k : Str) (hi : Inv h) : hasKey h k = fHas (iteritems h) k :=
+  hasKey_eq_fHas h k hi
+
+theorem C16_obs_itermerged (h : HD) (hi : Inv h) : itermerged h = specMerged (iteritems h) :=
+  itermerged_refines h hi
+
+theorem C16_obs_iter_len (h : HD) (hi : Inv h) :
+    iterKeys h = specNames (iteritems h) ∧ h.length = (specNames (iteritems h)).length := by
+  have := specNames_refines_aux h hi [] (by simp)
+  unfold specNames
+  rw [this]
+  exact ⟨rfl, by simp [iterKeys]⟩
+
+/-- lookups do not depend on the casing of the queried name -/
+theorem C16_case_insensitive (h : HD) (k k' : Str) (hk : lower k = lower k') :
+    getlist h k = getlist h k' ∧ getItem h k = getItem h k' ∧ hasKey h k = hasKey h k' := by
+  simp [getlist, getItem, hasKey, hk]
+
+/-! ### Frame: an operation on name `k` leaves every line of another name in place and in order -/
+
+theorem C16_frame_add (f : Flat) (k v : Str) (c : Bool) :
+    (if c then specAddC f k v else specAdd f k v).filter (other k) = f.filter (other k) := by
+  cases c
+  · simpa using specAdd_frame f k v
+  · simpa using specAddC_frame f k v
+
+theorem C16_frame_set (f : Flat) (k v : Str) : (specSet f k v).filter (other k) = f.filter (other k) :=
+  specSet_frame f k v
+
+theorem C16_frame_discard (f : Flat) (k : Str) : (specDiscard f k).filter (other k) = f.filter (other k) := by
+  simp [specDiscard]
+
+/-- add appends exactly one value to the name's own lines; assignment leaves exactly the new one -/
+theorem C16_add_appends (f : Flat) (k v : Str) : specGetlist (specAdd f k v) k = specGetlist f k ++ [v] :=
+  specAdd_getlist f k v
+
+theorem C16_set_replaces (f : Flat) (k v : Str) : specGetlist (specSet f k v) k = [v] :=
+  specSet_getlist f k v
+
+/-- a copy is equal to its source, and an in-place operation on handle `i` leaves every other
+existing handle untouched (independence of copies and unions in the model; the aliasing half is
+carried by the correspondence run on multi-handle sequences) -/
+theorem C16_copy_independent (st : Store) (i j : Nat) (k v : Str) (c : Bool) (hj : j ≠ i) :
+    (step st (.add i k v c)).1[j]? = st[j]? ∧ (step st (.set i k v)).1[j]? = st[j]? ∧
+    (step st (.discard i k)).1[j]? = st[j]? := by
+  refine ⟨?_, ?_, ?_⟩ <;>
+  · simp only [step]; split
+    · simp [Store.put, Ne.symm hj]
+    · rfl
+
+/-! ### Non-vacuity -/
+
+private def ex : List Op :=
+  [.new, .add 0 (lit "Set-Cookie") (lit "a") false, .add 0 (lit "set-cookie") (lit "b") false,
+   .set 0 (lit "A") (lit "1"), .add 0 (lit "a") (lit "2") true, .copy 0, .del 1 (lit "SET-COOKIE"),
+   .update 1 (.hd 0)]
+
+example : absS (run ex) =
+    [[(lit "Set-Cookie", lit "a"), (lit "Set-Cookie", lit "b"), (lit "A", lit "1, 2")],
+     [(lit "A", lit "1, 2"), (lit "Set-Cookie", lit "a, b")]] := by decide
+
+example : StoreInv (run ex) := C16_inv ex
+
 end U3.Props
